@@ -137,6 +137,30 @@ Definition rdable_fields : N -> list (N * tv) -> bool :=
     | (id, x) :: r => (last <? id) && (id - last <? 16) && (id <=? 127) && rdable x && allf id r
     end.
 
+(* what the reader needs of a tree besides `rdable` (weaker than Compact.wfb: integers only have to
+   fit 64 bits - read_thrift decodes every varint as a 64-bit zigzag - and an empty list may carry any
+   element-type nibble, in particular write_list's 0) *)
+Fixpoint rwf (v : tv) : bool :=
+  match v with
+  | TBool _ => true
+  | TI8 _ => true
+  | TI16 z => in_range 64 z
+  | TI32 z => in_range 64 z
+  | TI64 z => in_range 64 z
+  | TDouble _ => true
+  | TBin l => len l <? 2 ^ 31
+  | TList ety l => (ety <? 16) && (len l <? 2 ^ 31) &&
+      (fix all (l : list tv) : bool :=
+         match l with [] => true | x :: r => elem_ok ety x && rwf x && all r end) l
+  | TStruct fs =>
+      (fix allf (fs : list (N * tv)) : bool :=
+         match fs with [] => true | (id, x) :: r => rwf x && allf r end) fs
+  end.
+Definition rwf_elems (ety : N) : list tv -> bool :=
+  fix all (l : list tv) : bool := match l with [] => true | x :: r => elem_ok ety x && rwf x && all r end.
+Definition rwf_fields : list (N * tv) -> bool :=
+  fix allf (fs : list (N * tv)) : bool := match fs with [] => true | (id, x) :: r => rwf x && allf r end.
+
 (* ---- the objects for which the round trip is claimed ----------------------------------------
    every key that carries a value is one of 1..13 (write_thrift's `range(1, 14)`), no floats (the
    Parquet IDL has none; read_thrift misreads them), byte strings and lists shorter than 2^31
